@@ -136,6 +136,7 @@ func (p *Part[C]) safeExec(c C) (res *Result) {
 			}
 		}()
 	}
+	curCase.Store(func(f *Failure) { p.saveFail(c, f, SeedFor(p.Name)) })
 	res = p.Exec(c)
 	if res == nil {
 		res = &Result{}
@@ -357,6 +358,7 @@ func must(err error) {
 // Main is the TestMain body of every property package.
 func Main(m *testing.M) {
 	flag.Parse()
+	startHangWatchdog()
 	code := m.Run()
 	DumpStats()
 	os.Exit(code)
